@@ -69,6 +69,8 @@ def run(tier, seed, rep):
                 cands.append(fieldless(rng, did, n, mask))
                 did += 1
         # neighbouring variants whose canonical names coincide still get one entry each
+        # more variants than a byte counts (identifier names only, so that the naming side conditions hold)
+        cands.append(enum(did, [variant(IG.ids_for(did)[i], dis=(i % 11 == 3)) for i in range(280)], style="snake_case", prefix="p.")); did += 1
         cands.append(enum(did, [variant("Kb"), variant("KB"), variant("Mb")], style="lowercase")); did += 1
         cands.append(enum(did, [variant("Low"), variant("Medium", ser=["High"]), variant("High"), variant("Max")])); did += 1
         cands.append(enum(did, [variant("A", ts="same"), variant("B", ts="same"), variant("C", dis=True, ts="same"), variant("D", ts="same")], prefix="p")); did += 1
